@@ -269,3 +269,14 @@ def systematic():
             continue
         out.append(src)
     return out
+
+
+def corpus_programs():
+    """Minimised programs on which a seeded change once failed (corpus/programs.json, committed;
+    only ever read here)."""
+    import json
+    import os
+    p = os.path.join(os.path.dirname(os.path.dirname(os.path.abspath(__file__))), "corpus", "programs.json")
+    if not os.path.exists(p):
+        return []
+    return [e["source"] for e in json.load(open(p))]
